@@ -702,6 +702,14 @@ func replayMatches(expect, got string) bool {
 	}
 	if strings.HasPrefix(expect, "runtime: ") || strings.HasPrefix(expect, "explicit: ") || strings.HasPrefix(expect, "alloc: ") {
 		msg := expect[strings.Index(expect, ": ")+2:]
+		if strings.HasPrefix(expect, "alloc: ") && strings.HasPrefix(got, "ok alloc=") {
+			// an allocation obligation has no panic when the runtime can serve the request: the counter-example
+			// counts when the native run on this input did allocate at least the limit (in bytes)
+			var limit, nat uint64
+			fmt.Sscanf(msg, "allocation of more than %d elements", &limit)
+			fmt.Sscanf(got, "ok alloc=%d", &nat)
+			return limit > 0 && nat >= limit
+		}
 		if !strings.HasPrefix(got, "panic: ") {
 			return false
 		}
@@ -778,7 +786,7 @@ func nativeReplay(work string, overlay map[string][]byte, rfs []*ReplayFile, pat
 			}
 		}
 		var sb strings.Builder
-		sb.WriteString("//go:build verif\n\npackage " + pkgName + "\n\nimport (\n\t\"fmt\"\n\t\"os\"\n\t\"strings\"\n\t\"testing\"\n\tvfjson2 \"encoding/json\"\n)\n\n")
+		sb.WriteString("//go:build verif\n\npackage " + pkgName + "\n\nimport (\n\t\"fmt\"\n\t\"os\"\n\t\"runtime\"\n\t\"strings\"\n\t\"testing\"\n\tvfjson2 \"encoding/json\"\n)\n\n")
 		sb.WriteString("var vfHarnessTable = map[string]func(){\n")
 		var names []string
 		for f := range funcs {
@@ -795,7 +803,9 @@ func nativeReplay(work string, overlay map[string][]byte, rfs []*ReplayFile, pat
 		switch x := r.(type) {
 		case nil:
 			b, _ := vfjson2.Marshal(vfObserved)
-			res = "ok observe=" + string(b)
+			var ms runtime.MemStats
+			runtime.ReadMemStats(&ms)
+			res = fmt.Sprintf("ok alloc=%d observe=%s", ms.TotalAlloc-vfAllocBefore, string(b))
 		case vfAssertFailed:
 			res = "assert: " + x.Label
 		case vfAssumeFailed:
@@ -824,9 +834,14 @@ func nativeReplay(work string, overlay map[string][]byte, rfs []*ReplayFile, pat
 	os.Setenv("VF_REPLAY", path)
 	vfReset()
 	vfIsThorough = f.Thorough
+	var ms runtime.MemStats
+	runtime.ReadMemStats(&ms)
+	vfAllocBefore = ms.TotalAlloc
 	h()
 	return ""
 }
+
+var vfAllocBefore uint64
 
 func TestVfReplay(t *testing.T) {
 	for _, p := range strings.Split(os.Getenv("VF_REPLAYS"), ":") {
